@@ -44,7 +44,7 @@ def run_case(case):
                 dims["empty_rate"] = 0.0
             step = {"op": "pull", "path": "/f" + case["seed"].replace(":", "_"), "size": size, "seed": case["seed"], "rec": rng.choice(["64k", "one", "random", "alt", "zeros"]),
                     "split": rng.choice(["whole", "random", "random", "bytes1"]) if size <= 300 else rng.choice(["whole", "random"]),
-                    "dest": rng.choice(["bytesio", "path"]), "cb": rng.choice([None, "ok", "raise"])}
+                    "dest": rng.choice(["bytesio", "path"]), "cb": rng.choice([None, "ok", "raise", "raisebase"])}
             sess = gen.make_session(case["impl"], dims, case["seed"])
             r = scen.Runner(sess, {"dims": dims, "steps": []})
             r.tmp = tmp
